@@ -1,7 +1,7 @@
 """C02 — boolean collision tests (structural clauses)."""
 from . import scopes
 from ..core.report import DOMAIN_D
-from ..rules import nesterov, mink, loops, runmin, libccd, unpack
+from ..rules import nesterov, mink, loops, runmin, libccd, unpack, ericson, misc2, unitdir
 
 MODS = ["distance3d.gjk._gjk_jolt", "distance3d.gjk._gjk_libccd", "distance3d.mpr", "distance3d.gjk._gjk_nesterov_accelerated",
         "distance3d.gjk._gjk_nesterov_accelerated_primitives", "distance3d.minkowski"]
@@ -24,4 +24,8 @@ def run(idx, rep, tier):
     nesterov.r_dtree(idx, rep)
     nesterov.r_tuplerole(idx, rep, floor=6)
     loops.r_loop(idx, rep, MODS, floor=10)
+    ericson.r_ericson(idx, rep)
+    nesterov.r_mainloop(idx, rep)
+    misc2.r_dupcond(idx, rep, [m.name for m in idx.lib_modules()], floor=3)
+    unitdir.r_portaldir(idx, rep)
     unpack.r_unpack(idx, rep, floor=28)
